@@ -319,6 +319,10 @@ def decision_sites(ctx: Ctx):
                         shapes.append("call " + _call_shape(st.value, _norm(ctx, f), ctx, f))
                     elif isinstance(tg, ast.Name) and isinstance(st, ast.Assign) and isinstance(st.value, ast.Constant) and isinstance(st.value.value, (bool, type(None))):
                         shapes.append("set $a = %r" % (st.value.value,))
+                    elif isinstance(tg, ast.Name) and isinstance(st, ast.Assign) and isinstance(st.value, ast.Name):
+                        shapes.append("set $a = $b")
+                    elif isinstance(tg, ast.Name) and isinstance(st, ast.AugAssign) and isinstance(st.value, ast.Constant):
+                        shapes.append("set $a %s= %r" % (type(st.op).__name__, st.value.value))
                     elif isinstance(tg, ast.Name) and isinstance(st, ast.Assign) and _filters(st.value):
                         shapes.append("filter $a")
                         extra = {("KEPT(%s)" % t, p) for cnd in _filters(st.value) for (t, p) in literals(cnd, True)}
@@ -382,8 +386,12 @@ def _call_shape(c: ast.Call, nm: "_Norm" = None, ctx: Ctx = None, f=None) -> str
 
 
 def _conjunctive(facts):
-    """facts without the disjunctive ones: after `if a: if b: return` nothing is known, after `if a and b: return` the literal `not a or not b` is - the two
-    spellings are only comparable on their conjunctive facts"""
+    """facts with the disjunctive ones rewritten as `ANY(d1, d2, ...)` (disjuncts in a name-independent order) and `X in (a, b)` as the disjunction it is.
+    After `if a: if b: return` nothing is known, after `if a and b: return` the literal `not a or not b` is: the comparison (`_same_condition`) therefore
+    treats ANY facts as optional and only objects when a site has both an ANY fact the table lacks and lacks one the table has - a changed disjunction."""
+    from sa.guards import nnf
+    from sa.canon import canon_text
+    from rules.common import generalise
     out = set()
     for (t, p) in facts:
         try:
@@ -391,19 +399,37 @@ def _conjunctive(facts):
         except SyntaxError:
             out.add((t, p))
             continue
-        if isinstance(e, ast.BoolOp) and ((isinstance(e.op, ast.Or) and p) or (isinstance(e.op, ast.And) and not p)):
-            continue
         if isinstance(e, ast.Compare) and len(e.ops) == 1 and isinstance(e.ops[0], (ast.In, ast.NotIn)) and isinstance(e.comparators[0], (ast.Tuple, ast.List, ast.Set)) \
                 and 1 < len(e.comparators[0].elts) <= 4:
-            # `X in (a, b)` is `a == X or b == X`
+            eqs = [canon_text("%s == %s" % (ast.unparse(el), ast.unparse(e.left))) for el in e.comparators[0].elts]
             if isinstance(e.ops[0], ast.In) == p:
-                continue
-            from sa.canon import canon_text
-            for el in e.comparators[0].elts:
-                out.add((canon_text("%s == %s" % (ast.unparse(el), ast.unparse(e.left))), False))
+                out.add(("ANY(%s)" % ", ".join(sorted(eqs, key=lambda x: (generalise(x), x))), True))
+            else:
+                for q in eqs:
+                    out.add((q, False))
             continue
+        if isinstance(e, ast.BoolOp):
+            n = nnf(e, p)
+            if isinstance(n, ast.BoolOp) and isinstance(n.op, ast.Or):
+                ds = [ast.unparse(v) for v in n.values]
+                out.add(("ANY(%s)" % ", ".join(sorted(ds, key=lambda x: (generalise(x), x))), True))
+                continue
         out.add((t, p))
     return out
+
+
+def _same_condition(facts, cond):
+    """(extra, missing) between a site's facts and a table condition; ANY facts only count when they disagree both ways"""
+    from rules.common import _match_condition
+    fc = [x for x in facts if not x[0].startswith("ANY(")]
+    fd = [x for x in facts if x[0].startswith("ANY(")]
+    cc = [x for x in cond if not x[0].startswith("ANY(")]
+    cd = [x for x in cond if x[0].startswith("ANY(")]
+    extra, missing = _match_condition(fc, cc)
+    ex_d, mi_d = _match_condition(fd, cd)
+    if ex_d and mi_d:
+        extra, missing = list(extra) + list(ex_d), list(missing) + list(mi_d)
+    return extra, missing
 
 
 def _filters(v: ast.AST):
@@ -473,7 +499,7 @@ def decision_table(ctx: Ctx, rep: Report, rid: str, functions=None):
         free = list(range(len(conds)))
         pending = []
         for (f, st, facts) in sites:
-            hit = [j for j in free if _match_condition(facts, conds[j]) == ([], [])]
+            hit = [j for j in free if _same_condition(facts, conds[j]) == ([], [])]
             if hit:
                 free.remove(hit[0])
                 n += 1
@@ -482,8 +508,8 @@ def decision_table(ctx: Ctx, rep: Report, rid: str, functions=None):
                 pending.append((f, st, facts))
         for (f, st, facts) in pending:
             cand = [conds[j] for j in free] or conds
-            best = min(cand, key=lambda w: sum(len(x) for x in _match_condition(facts, w)))
-            extra, missing = _match_condition(facts, best)
+            best = min(cand, key=lambda w: sum(len(x) for x in _same_condition(facts, w)))
+            extra, missing = _same_condition(facts, best)
             rep.violation(rid, key, ctx.line(f, st), "`%s` in %s is reached under %s; the table's closest condition for this site is %s (extra: %s, missing: %s) - the state "
                           "machine takes this action in a different set of states" % (ast.unparse(st).split("\n")[0][:60], f.name, sorted(facts), best, extra, missing), func=f.qname)
         if free and not pending:
